@@ -3,7 +3,8 @@
 S=/verif/seeded/$1; P=$2; T=${3:-quick}
 cd /repo || exit 2
 if [ -n "$(git status --porcelain)" ]; then echo "REPO DIRTY"; exit 2; fi
-if ! git apply --3way $S/patch.diff 2>/tmp/seedtest.err; then git checkout -- . ; git reset -q; echo "PATCH DOES NOT APPLY: $(head -3 /tmp/seedtest.err)"; exit 3; fi
+PATCH=$S/patch.diff; [ -f $S/patch_rebased.diff ] && PATCH=$S/patch_rebased.diff
+if ! git apply --3way $PATCH 2>/tmp/seedtest.err; then git checkout -- . ; git reset -q; echo "PATCH DOES NOT APPLY: $(head -3 /tmp/seedtest.err)"; exit 3; fi
 git reset -q
 cd /verif; ./check $P $T > /tmp/seedtest-$1-$P.log 2>&1; rc=$?
 cd /repo; git checkout -- .; git status --porcelain
